@@ -259,6 +259,7 @@ fn gen_case(seed: u64, tier: Tier) -> Case {
 					fail_decode: vec![],
 					fail_seek: vec![],
 					fail_sticky: false,
+					slow: 0,
 				},
 				slice: None,
 				settings,
